@@ -18,7 +18,7 @@ import (
 	"verif/simnet"
 )
 
-var caps = []string{"", "fin-during-trace", "rstack-during-trace", "timestamps", "timestamps-bsd-option-order", "bsd-option-order", "duplicate-synack", "slow-synack", "isn-near-wrap", "no-sack-permitted", "plain-acks", "plain-acks-with-timestamps", "empty-sack-option", "half-sack-block", "closed", "no-handshake", "syn-dropped"}
+var caps = []string{"", "dsack-below-window", "fin-during-trace", "rstack-during-trace", "timestamps", "timestamps-bsd-option-order", "bsd-option-order", "duplicate-synack", "slow-synack", "isn-near-wrap", "no-sack-permitted", "plain-acks", "plain-acks-with-timestamps", "empty-sack-option", "half-sack-block", "closed", "no-handshake", "syn-dropped"}
 
 func unavailable(c string) bool {
 	return c == "no-sack-permitted" || c == "plain-acks" || c == "plain-acks-with-timestamps" || c == "empty-sack-option" || c == "half-sack-block" || c == "closed" || c == "syn-dropped"
